@@ -5,7 +5,8 @@ an output file.  It wraps public methods at import time with pass-through wrappe
 own result, log in `finally` (the return of the public call is the linearization point of a sequential
 library) and never touch the arguments.  Nothing in /repo is modified.
 
-Recorded: Step.apply of every step class (-> "Apply" and "StepMap" events), Node.replace, Node.slice.
+Recorded: Step.apply of every step class (-> "Apply" and "StepMap" events), Node.replace, Node.slice, and the
+outermost StepMap.map / map_result and Mapping.map / map_result of every call chain (-> "Mapping" events).
 """
 from __future__ import annotations
 
@@ -17,6 +18,8 @@ OUT = os.environ.get("PMV_TRACE")
 _events = []          # (schema id, event dict with real-object projections)
 _schemas = {}
 _depth = {"apply": 0}
+_counts = {}
+_maps = []            # schema-independent events: StepMap / Mapping queries
 
 
 def _sid(schema):
@@ -128,6 +131,56 @@ def _install():
     Node.replace = replace
     Node.slice = slice_
 
+    # ---- position maps: the outermost StepMap / Mapping query of every call chain
+    from prosemirror.transform import Mapping, StepMap
+
+    def ranges_of(m):
+        return {"ranges": [list(m.ranges[i:i + 3]) for i in range(0, len(m.ranges), 3)], "inv": bool(m.inverted)}
+
+    def state_of(obj):
+        if isinstance(obj, StepMap):
+            return {"maps": [ranges_of(obj)], "mirror": [], "from": 0, "to": 1}
+        mirror = obj.mirror or []
+        return {"maps": [ranges_of(m) for m in obj.maps], "mirror": [[mirror[i], mirror[i + 1]] for i in range(0, len(mirror) - 1, 2)],
+                "from": obj.from_, "to": obj.to}
+
+    def wrap_query(cls, name, mode):
+        orig = getattr(cls, name)
+
+        @functools.wraps(orig)
+        def query(self, pos, assoc=1):
+            _depth["map"] = _depth.get("map", 0) + 1
+            res = None
+            exc = None
+            try:
+                res = orig(self, pos, assoc)
+                return res
+            except Exception as ex:  # noqa: BLE001
+                exc = ex
+                raise
+            finally:
+                _depth["map"] -= 1
+                try:
+                    if _depth["map"] == 0 and _counts.get("map", 0) < 6000 and isinstance(pos, int) and not isinstance(pos, bool):
+                        _counts["map"] = _counts.get("map", 0) + 1
+                        q = {"p": pos, "assoc": 1 if assoc is None else assoc, "mode": mode, "pos": -1, "del": 0, "simple": -1,
+                             "res": {"kind": "ok"} if exc is None else {"kind": "raise", "cls": type(exc).__name__}}
+                        if exc is None and mode == "simple":
+                            q["simple"] = res
+                        elif exc is None:
+                            q["pos"], q["del"] = res.pos, res.del_info
+                        ev = {"ev": "Mapping", "tag": "testsuite", "roundtrip": False, "q": [q]}
+                        ev.update(state_of(self))
+                        _maps.append(ev)
+                except Exception:  # noqa: BLE001
+                    pass
+        setattr(cls, name, query)
+
+    wrap_query(StepMap, "map", "simple")
+    wrap_query(StepMap, "map_result", "result")
+    wrap_query(Mapping, "map", "simple")
+    wrap_query(Mapping, "map_result", "result")
+
 
 def pytest_configure(config):
     if OUT:
@@ -141,4 +194,4 @@ def pytest_sessionfinish(session, exitstatus):
             by.setdefault(sid, []).append(ev)
         with open(OUT, "w") as f:
             json.dump({"schemas": {str(k): v for k, v in _schemas.items() if v is not None},
-                       "events": {str(k): v for k, v in by.items()}, "exitstatus": int(exitstatus)}, f)
+                       "events": {str(k): v for k, v in by.items()}, "maps": _maps, "exitstatus": int(exitstatus)}, f)
